@@ -280,6 +280,13 @@ func (p *Prog) Callers(fn *ssa.Function) []ssa.CallInstruction {
 	for _, e := range n.In {
 		if e.Site != nil && !seen[e.Site] {
 			seen[e.Site] = true
+			// the wrappers go/ssa synthesises (pointer-receiver wrapper of a value method, bound-method and thunk
+			// wrappers) are callers only when something calls them
+			if par := e.Site.Parent(); par != nil && par != fn && (strings.HasPrefix(par.Synthetic, "wrapper for") || strings.HasPrefix(par.Synthetic, "bound method wrapper") || strings.HasPrefix(par.Synthetic, "thunk for")) {
+				if pn := p.CG.Nodes[par]; pn == nil || len(pn.In) == 0 {
+					continue
+				}
+			}
 			out = append(out, e.Site)
 		}
 	}
